@@ -42,7 +42,7 @@ GEO_TAIL = 1e-9
 
 
 class Ev:
-    __slots__ = ("door", "kind", "params", "value", "probs", "chosen", "std")
+    __slots__ = ("door", "kind", "params", "value", "probs", "chosen", "std", "call")
 
     def __init__(self, door, kind, params, value, probs=None, chosen=None, std=None):
         self.door = door  # "internal" | "outer"
@@ -52,6 +52,7 @@ class Ev:
         self.probs = probs
         self.chosen = chosen
         self.std = std  # standardised noise of a continuous draw
+        self.call = None  # index of the host call (one call per site evaluation / per lane) the element belongs to
 
     def as_dict(self):
         return {"door": self.door, "kind": self.kind, "params": [np.asarray(p).tolist() for p in self.params],
@@ -158,8 +159,11 @@ class Host:
         for p in params:
             p = np.asarray(p, dtype=np.float64)
             flat.append(p.reshape((n, p.shape[-1])) if kind == "categorical" else p.reshape((n,)))
+        n0 = len(self.events)
         for i in range(n):
             out[i] = self.draw(door, kind, tuple(f[i] for f in flat))
+        for e in self.events[n0:]:
+            e.call = self.calls
         return out.reshape(out_shape)
 
     def callback_mvn(self, door, out_shape, loc, cov):
@@ -183,6 +187,7 @@ class Host:
                     z[j] = self.eps * (1.0 - 0.35 * j)  # distinct per coordinate, deterministic
             out[i] = lf[i] + L @ z
             self.events.append(Ev(door, "mvn", (lf[i], cf[i]), out[i].astype(np.float32), std=z))
+            self.events[-1].call = self.calls
         return out.reshape(loc.shape).astype(np.float32)
 
 
